@@ -18,6 +18,8 @@ type c45Plan struct {
 	NewApex string   `json:"new_apex"`
 	NewTgts []string `json:"new_targets"`
 	Saves   int      `json:"saves"`
+	// the configuration path is a symbolic link to the real file (dotfiles repository, mounted volume)
+	Symlink bool `json:"symlink,omitempty"`
 }
 
 func pick[T any](r *simrt.Rand, xs ...T) T { return xs[r.Intn(len(xs))] }
@@ -51,6 +53,7 @@ func runC45(t *testing.T, prop string, seed uint64, tier string, replay *hcommon
 		p.NewTgts = append(p.NewTgts, fmt.Sprintf("http://127.0.0.1:%d", 1000+r.Intn(9000)))
 	}
 	p.NewApex = pick(r, "apex.example.com", "a.b", "")
+	p.Symlink = r.Intn(4) == 0
 	if replay != nil && len(replay.Plan) > 0 {
 		p = &c45Plan{}
 		json.Unmarshal(replay.Plan, p)
@@ -76,7 +79,13 @@ func runC45(t *testing.T, prop string, seed uint64, tier string, replay *hcommon
 			initial += fmt.Sprintf("  - target: %s\n    hostname: h%d\n", tg, i)
 		}
 	}
-	h, _ := fs.OpenFile("/cfg/specter.yaml", simfs.O_CREATE|simfs.O_RDWR, 0o644)
+	real := "/cfg/specter.yaml"
+	if p.Symlink {
+		fs.MkdirAll("/real")
+		real = "/real/specter.yaml"
+		fs.Symlink(real, "/cfg/specter.yaml")
+	}
+	h, _ := fs.OpenFile(real, simfs.O_CREATE|simfs.O_RDWR, 0o644)
 	h.Write([]byte(initial))
 	h.Sync()
 	cfg, err := tc.NewConfig("/cfg/specter.yaml")
